@@ -197,6 +197,7 @@ def available():
 
 
 _AVAIL = None
+CONFIRM_GRACE_S = 8
 
 
 def race(text, timeout_s, confirm=False, tmpdir=None):
@@ -269,6 +270,11 @@ def race(text, timeout_s, confirm=False, tmpdir=None):
                 break
             if has_unsat and (not confirm or len(definitive) >= 2):
                 break
+            if has_unsat and confirm:
+                # thorough tier: a second solver gets a grace period to confirm, then the first verdict stands
+                first_t = min(a[1] for _, a in definitive if a[0] == 'unsat')
+                if time.time() - t0 > first_t + CONFIRM_GRACE_S:
+                    break
             if definitive and not has_unsat and time.time() - t0 > min(timeout_s, definitive[0][1][1] + 5):
                 break
             time.sleep(0.01)
@@ -292,7 +298,7 @@ def race(text, timeout_s, confirm=False, tmpdir=None):
         res = {'verdict': v, 'by': winners[0][1], 'seconds': winners[0][0], 'detail': detail,
                'confirmed_by': [n for _, n in winners[1:]]}
         if confirm and v == 'unsat' and len(winners) < 2:
-            res['unconfirmed'] = True
+            res['unconfirmed'] = True     # (reported in the evidence; the verdict stands)
         return res
     finally:
         shutil.rmtree(d, ignore_errors=True)
